@@ -11,6 +11,7 @@ mod raceops;
 mod rawarchive;
 mod restoreops;
 mod roundtrip;
+mod walkops;
 
 fn main() {
     let path = std::env::args().nth(1).expect("scenario path");
@@ -27,6 +28,7 @@ fn main() {
         "diff" => diffops::run(&sc),
         "race" => raceops::run(&sc),
         "restore_raw" => restoreops::run(&sc),
+        "walk" => walkops::run(&sc),
         other => json!({"error": format!("unknown scenario kind {other}")}),
     };
     println!("{}", serde_json::to_string(&out).unwrap());
